@@ -63,7 +63,7 @@ def _signatures(n, mmax, total):
     return out
 
 
-def eval_coupling(prog, kind, n, mmax, bands=(0, 1, 2)):
+def eval_coupling(prog, kind, n, mmax, bands=(0, 1, 2), full=None):
     """Interprets coupling() on every ordered pair of distinct states (bands 0..2) of n molecules with at
     most mmax excitations per molecule; returns (deviations, number of pairs, number of states)."""
     import math
@@ -101,6 +101,10 @@ def eval_coupling(prog, kind, n, mmax, bands=(0, 1, 2)):
                 for extra in c.node.args.args[3:]:
                     dflt = c.node.args.defaults[len(c.node.args.defaults) - (len(c.node.args.args) - c.node.args.args.index(extra))]
                     args[extra.arg] = ast.literal_eval(dflt)
+                if full is not None:
+                    if "full" not in args:
+                        raise AnalysisError("coupling() lost its 'full' argument")
+                    args["full"] = full
                 got = ev.call_function(c.node, args)
             except feval.Unsupported as e:
                 raise AnalysisError("coupling(): construct outside the finite evaluator's vocabulary: %s" % e)
@@ -114,6 +118,9 @@ def eval_coupling(prog, kind, n, mmax, bands=(0, 1, 2)):
                     exp = exp * fc
                     if b1 >= 2:
                         exp = exp * math.sqrt(max(a[diff[0]], b[diff[0]])) * math.sqrt(max(a[diff[1]], b[diff[1]]))
+            elif full and kind == "VibronicState" and abs(b1 - b2) == 2 and len(diff) == 2:
+                # full Frenkel exciton model: two molecules raised (or lowered) together
+                exp = SymArr("J", symmetric=True).at(diff) * fc
             else:
                 exp = Sym(0.0)
             if isinstance(got, (int, float)):
@@ -243,6 +250,36 @@ def rule_A(run, prog):
     rid = "C03-A"
     f = prog.func("quantarhei.builders.interactions.dipole_dipole_interaction")
     prog.consulted.add(f.relpath)
+    # element type: positions and dipoles may be given as whole numbers (integer arrays).  An in-place
+    # operator on an array that has the element type of the inputs cannot hold a fractional result
+    # (numpy raises a casting error, which the callers swallow and turn into a zero coupling); on a
+    # parameter itself it would also modify the caller's array.
+    params = {a.arg for a in f.node.args.args}
+    bad = []
+    for n in walk_no_nested(f.node):
+        if isinstance(n, ast.AugAssign):
+            base = n.target
+            while isinstance(base, ast.Subscript):
+                base = base.value
+            if not isinstance(base, ast.Name):
+                continue
+            if base.id in params:
+                bad.append((n, "modifies the caller's array %s" % base.id))
+                continue
+            binds = [b for b in walk_no_nested(f.node) if isinstance(b, ast.Assign)
+                     and any(isinstance(t_, ast.Name) and t_.id == base.id for t_ in b.targets)]
+            typed_by_inputs = bool(binds) and all(
+                not any(isinstance(x, ast.Call) for x in ast.walk(b.value)) and
+                {x.id for x in ast.walk(b.value) if isinstance(x, ast.Name)} <= params and
+                not any(isinstance(x, ast.Div) for x in ast.walk(b.value)) for b in binds)
+            if typed_by_inputs and isinstance(n.op, (ast.Div, ast.Mult, ast.Add, ast.Sub, ast.Pow)):
+                bad.append((n, "%s has the element type of the inputs (%s); with whole-number positions or dipoles "
+                               "the in-place result cannot be stored" % (base.id, norm(binds[0].value))))
+    run.obligation(rid, "interactions.dipole_dipole_interaction", not bad, key="element-type",
+                   message="in-place arithmetic %s" % "; ".join("'%s' %s" % (norm(n), w) for n, w in bad[:2]),
+                   loc=f.loc(bad[0][0]) if bad else f.loc(), sample={"in_place_operations": len(bad)})
+    if bad:
+        return      # the algebraic interpretation below does not model in-place operators
     r1, r2, d1, d2 = (Array.opaque(n, 1) for n in ("r1", "r2", "d1", "d2"))
 
     def hook(it, func, call, name, args, kwargs):
